@@ -184,6 +184,17 @@ def check_property(prop, route, r=None):
             problems.append(('canonical_form of an output raised ' + type(e).__name__, where))
     if dict(prop.metadata) != meta_before:
         problems.append(('input metadata mutated', where))
+    # the returned list belongs to the caller: emptying it must not affect a later call
+    snapshot = [id(o) for o in out]
+    out.clear()
+    if r is not None:
+        r.count('transitions')
+    try:
+        again = canonical_form(prop)
+        if [absyn.canon(absyn.lift(o)) for o in again] != [absyn.canon(e) for e in expected]:
+            problems.append(('a second call after the caller emptied the first result gives a different answer', where + f' -> {len(again)} outputs'))
+    except Exception as e:  # noqa: BLE001
+        problems.append(('a second call raised ' + type(e).__name__, where))
     return problems
 
 
@@ -195,16 +206,19 @@ def instances(sk, pk, widths, tier):
             continue
         for max_t, timetxt in ((INF, None), (0.1, ('100', 'ms'))):
             for meta in ((), (('id', 'p1'), ('title', '"a title"'))):
-                for route in ('parser', 'api-right', 'api-left'):
+                for route in ('parser', 'api-right', 'api-left', 'api-min-time'):
                     nest = 'left' if route == 'api-left' else 'right'
                     if route == 'api-left' and all(w < 3 for w in widths.values()):
                         continue  # identical to api-right below width 3
+                    if route == 'api-min-time' and (meta or deco != 'plain'):
+                        continue
                     p = props.make_property(
                         sk, pk,
                         act=disj(evs['act'], nest) if 'act' in evs else None,
                         term=disj(evs['term'], nest) if 'term' in evs else None,
                         trig=disj(evs['trig'], nest) if 'trig' in evs else None,
-                        beh=disj(evs['beh'], nest), max_t=max_t,
+                        beh=disj(evs['beh'], nest), max_t=max_t if route != 'api-min-time' else (5.0 if max_t == INF else INF),
+                        min_t=0.25 if route == 'api-min-time' else 0.0,
                     )
                     yield deco, route, p, timetxt, meta
 
@@ -308,7 +322,7 @@ def replay(w):
 def describe(tier):
     b = bounds(tier)
     return {
-        'rule': f"every scope kind x pattern kind x disjunction width 1..{b['max_width']} in each event position (complete) x 6 decorations (plain, predicates, alias on every activator alternative referenced later, alias on every alternative of the first pattern event referenced by the second, the two partial-alias forms) x time bound (none, 100 ms) x metadata (none, id+title) x route (parser, API right-nested, API left-nested); canonical_form applied, compared with the activator-major product computed independently from the lifted input, then re-applied to every output. A state = one property object or one output; a transition = one canonical_form call.",
+        'rule': f"every scope kind x pattern kind x disjunction width 1..{b['max_width']} in each event position (complete) x 6 decorations (plain, predicates, alias on every activator alternative referenced later, alias on every alternative of the first pattern event referenced by the second, the two partial-alias forms) x time bound (none, 100 ms) x metadata (none, id+title) x route (parser, API right-nested, API left-nested); canonical_form applied, compared with the activator-major product computed independently from the lifted input, then re-applied to every output; the returned list is then emptied and canonical_form is called again on the same property. A state = one property object or one output; a transition = one canonical_form call.",
         'bounds': b,
         'exhaustive': True,
         'assumptions': ['lift() reads raw attrs fields; fresh construction through the public constructors defines "valid property"'],
